@@ -182,7 +182,7 @@ theorem nsv_setAgent (s : State) (a a' : Agent) (hn : (s.agents.map (·.name)).N
 theorem runAgInstrs_serial (et : String) (s : State) (a : Agent) (is : List (Instr ExtState)) : (runAgInstrs et s a is).2.1.serial = a.serial := by
   induction is generalizing s a with
   | nil => rfl
-  | cons i is ih => cases i <;> simp only [runAgInstrs] <;> first | rfl | (rw [ih])
+  | cons i is ih => cases i <;> simp only [runAgInstrs] <;> first | rfl | (rw [ih]; done) | (rw [ih]; split <;> rfl)
 
 theorem runAg_sfacts {et : String} {s s1 : State} {a a1 : Agent} {is : List (Instr ExtState)} {p : Bool}
     (h : runAgInstrs et s a is = (s1, a1, p)) :
